@@ -5,7 +5,7 @@ use triomphe::Arc;
 
 fn main() {
     let mut t = Tally::new();
-    for r in 0..rounds(4) {
+    for r in 0..rounds(8) {
         clone_read_drop::<Arc<Payload>>(&mut t, 2, 10 + r as u64);
     }
     t.finish();
